@@ -239,6 +239,68 @@ func runC01(c *Ctx) {
 	}
 	// ---- R6
 	c.trailingRule("R6", fpl, lineAlloc, fparam)
+	// ---- R13: who the line is from
+	r.Rule("R13", "the source is split into nick, ident and host exactly when it has the nick!user@host form and is otherwise kept whole as the host: in the parser every store to Line.Nick / Line.Ident is the corresponding result of parseUserHost under its ok result, and every store to Line.Host is that function's host result under ok, or the source itself")
+	{
+		puh := c.Func(c.Client, "parseUserHost")
+		nSrc := 0
+		for _, fn := range plReach.Order {
+			if !c.InModuleFn(fn) || fn == puh {
+				continue
+			}
+			funcInstrs(fn, func(in ssa.Instruction) {
+				st, ok := in.(*ssa.Store)
+				if !ok {
+					return
+				}
+				fv, base := fieldOf(st.Addr)
+				if fv == nil || (fv != field("Nick") && fv != field("Ident") && fv != field("Host")) {
+					return
+				}
+				nSrc++
+				want := map[string]int{"Nick": 0, "Ident": 1, "Host": 2}[fv.Name()]
+				okS, why := false, "stores "+st.Val.String()
+				for _, o := range c.originsLocal(st.Val) {
+					okS = false
+					if ex, isE := o.(*ssa.Extract); isE && ex.Index == want {
+						if call, isC := ex.Tuple.(*ssa.Call); isC && puh != nil && call.Call.StaticCallee() == puh {
+							// under ok
+							for _, cd := range CondsAt(st.Block()) {
+								cd = unwrapNot(cd)
+								if e2, isE2 := cd.V.(*ssa.Extract); isE2 && e2.Tuple == ex.Tuple && e2.Index == 3 && cd.True {
+									okS, why = true, "parseUserHost result under ok"
+								}
+							}
+							if !okS {
+								why = "parseUserHost result stored without its ok result being true"
+							}
+						}
+					}
+					if !okS && fv.Name() == "Host" {
+						// the whole source: a load of Src of the same line, or the very value stored to Src
+						if f2, b2 := loadedField(o); f2 == field("Src") && b2 == base {
+							okS, why = true, "the source itself"
+						}
+						funcInstrs(fn, func(x ssa.Instruction) {
+							if s2, isS := x.(*ssa.Store); isS {
+								if f3, b3 := fieldOf(s2.Addr); f3 == field("Src") && b3 == base && s2.Val == o {
+									okS, why = true, "the source itself"
+								}
+							}
+						})
+						if _, isP := o.(*ssa.Parameter); isP && fn != pl && fn != fpl {
+							okS, why = true, "the source handed to the helper"
+						}
+					}
+					if !okS {
+						break
+					}
+				}
+				r.Add("R13", fmt.Sprintf("source-field#%d:%s", nSrc, fv.Name()), c.InstrPos(st), c.FuncKey(fn), "Line."+fv.Name()+" comes from the nick!user@host split (or, for Host, is the whole source)", okS, why)
+			})
+		}
+		r.Floor("R13", "stores to Line.Nick / Ident / Host in the parser", nSrc, 4)
+	}
 
 	// ---- R1 (b): nothing but the replacer transforms a tag between the ';' split and the '=' split
 	for _, fn := range plReach.Order {
@@ -852,6 +914,38 @@ func runC10(c *Ctx) {
 			})
 		}
 		r.Add("R5", "no-flood-store", "-", "", "no store to Config.Flood of an existing Config anywhere in package client", nFl == 0, fmt.Sprintf("%d stores", nFl))
+	}
+	r.Rule("R6", "Flood toggled by the application is the Flood the writer reads: the Conn keeps the caller's own Config object - every store to the Conn's config field stores the constructor's parameter or the result of a Config constructor, never the address of a copy")
+	{
+		nC := 0
+		for _, fn := range c.clientFuncs() {
+			funcInstrs(fn, func(in ssa.Instruction) {
+				st, ok := in.(*ssa.Store)
+				if !ok {
+					return
+				}
+				if fv, _ := fieldOf(st.Addr); fv != a.Cfg {
+					return
+				}
+				nC++
+				okC, whyC := true, "the caller's Config (or a freshly constructed default)"
+				for _, o := range c.Origins(st.Val) {
+					switch t := o.(type) {
+					case *ssa.Parameter:
+					case *ssa.Call:
+						if cal := t.Call.StaticCallee(); cal == nil || !c.InModuleFn(cal) {
+							okC, whyC = false, "stores the result of "+calleeName(&t.Call)
+						}
+					case *ssa.Alloc:
+						okC, whyC = false, "stores the address of a local copy made at "+c.InstrPos(t)+": the application's Config is no longer the one the client reads"
+					default:
+						okC, whyC = false, "stores "+o.String()
+					}
+				}
+				r.Add("R6", "config-identity:"+c.FuncKey(fn), c.InstrPos(st), c.FuncKey(fn), "the client reads the application's own Config object", okC, whyC)
+			})
+		}
+		r.Floor("R6", "stores to the Conn's config field", nC, 1)
 	}
 	// the rate limiter: the client method taking the line length and returning a time.Duration that reads the clock
 	// (by shape, so that renaming it or moving it onto an embedded struct does not lose it)
